@@ -135,7 +135,9 @@ func WriteProgramCode(pkgs []*Archive, w *sourcemapx.Filter, goVersion string) e
 	// Aggregate all go:linkname directives in the program together.
 	gls := linkname.GoLinknameSet{}
 	for _, pkg := range pkgs {
-		gls.Add(pkg.GoLinknames)
+		if err := gls.Add(pkg.GoLinknames); err != nil {
+			return err
+		}
 	}
 
 	sel := &dce.Selector[*Decl]{}
